@@ -35,7 +35,9 @@ Inductive req_term :=
 Inductive dispatch_step := D_TagName | D_GraphicOrStructural | D_Visible | D_Use | D_Switch | D_Group.
 (* `convert_group`: the order of its exits after the children were collected *)
 Inductive group_step :=
-  GS_EmptyNoFilterAttr | GS_ObjectBBox | GS_Clip | GS_Mask | GS_Filters | GS_NotRequired | GS_EmptyNoFilters | GS_Boxes.
+  GS_EmptyNoFilterAttr | GS_ObjectBBox | GS_Clip | GS_Mask | GS_Filters | GS_NotRequired | GS_EmptyNoFilters | GS_Boxes
+  | GS_EmptyFiltersFirst.   (* dd154cd: an element without content resolves its filters BEFORE clip-path / mask and is dropped when
+                               they resolve to nothing *)
 (* shapes.rs: lengths that must be `is_valid_length` *)
 Inductive geom_attr := GA_Width | GA_Height | GA_R | GA_Rx | GA_Ry.
 
@@ -139,3 +141,40 @@ Inductive filter_fact := FF_GenIdAfterRegionCheck | FF_NoBBoxReturnsEarly.
 
 (* switch.rs is_valid_sys_lang: how one (trimmed) entry of systemLanguage is compared with one user language *)
 Inductive lang_rule := LR_Exact | LR_PrefixDash | LR_StartsWith.
+
+(* ---- extension round 4: what clip-path / mask resolution does to converter::Cache ----
+   parser/mask.rs `convert` and parser/clippath.rs `convert`: the steps that return, read or write the cache, in source order
+   (tables mask_steps / clip_steps of Gen/ConvTables.v). *)
+Inductive mask_step :=
+  | MS_TagCheck            (* link is not a `mask` element -> None *)
+  | MS_Recursive           (* state.parent_defs.contains(node) -> None *)
+  | MS_CacheLookup         (* cacheable && cache.masks has the id -> the cached mask *)
+  | MS_Rect                (* invalid x/y/width/height -> None *)
+  | MS_UnitsBBox           (* maskUnits = objectBoundingBox: bbox Some -> transformed rect, None -> mask_all *)
+  | MS_GenId               (* empty id -> None; !cacheable && cache.masks has the id -> gen_mask_id *)
+  | MS_MaskAllInsert       (* mask_all -> cache.masks.insert, Some *)
+  | MS_Linked              (* mask attribute of the mask element *)
+  | MS_ContentUnitsBBox    (* maskContentUnits = objectBoundingBox without bbox -> None *)
+  | MS_Children            (* convert_children; no children -> None *)
+  | MS_Insert.             (* cache.masks.insert, Some *)
+Inductive clip_step :=
+  | CS_TagCheck | CS_Recursive
+  | CS_Transform           (* invalid transform -> None *)
+  | CS_CacheLookup
+  | CS_UnitsBBox           (* clipPathUnits = objectBoundingBox without bbox -> None *)
+  | CS_Linked
+  | CS_GenId
+  | CS_Children            (* convert_clip_path_elements *)
+  | CS_InsertIfChildren.   (* has children -> cache.clip_paths.insert, Some; else None *)
+
+(* what the two resolvers read from the referenced element.  The conversion of its content (which may register further
+   definitions) is a function on the cache that also says whether any child was produced. *)
+Record def_info := {
+  d_tag_ok : bool;          (* the link points to a mask (clipPath) element *)
+  d_id : string;            (* element_id *)
+  d_units_obb : bool;       (* maskUnits (default) / clipPathUnits = objectBoundingBox *)
+  d_content_obb : bool;     (* maskContentUnits = objectBoundingBox (masks only) *)
+  d_cacheable : bool;       (* is_cacheable(node) *)
+  d_geom_ok : bool;         (* mask: the rect is a NonZeroRect; clipPath: the transform is valid *)
+  d_content : cache -> cache * bool
+}.
